@@ -583,6 +583,10 @@ def query_form(rng, Q):
     """The array object handed to biotite (and the float64 values it carries)."""
     u = rng.random()
     with np.errstate(all="ignore"):
+        if u < 0.07 and Q.size and np.isfinite(Q).all() and float(np.abs(Q).max()) < 2.0 ** 23:
+            # whole-numbered positions in an integer dtype (grid points, rng.integers(...)): the values the library is
+            # handed are the rounded ones, and the reference model is given exactly those
+            return np.round(Q).astype(str(rng.choice(["int64", "int32"]))), "int"
         if u < 0.55:
             return Q.copy(), "f64"
         if u < 0.85:
